@@ -197,6 +197,11 @@ func (o *Obligation) query(prelude string) string {
 	for _, d := range fv.decls[:o.NDecl] {
 		b.WriteString(d + "\n")
 	}
+	for i, a := range fv.entryAxioms {
+		if fv.entryAxiomDecl[i] <= o.NDecl {
+			b.WriteString("(assert " + a + ")\n")
+		}
+	}
 	for i, a := range fv.assumes[:o.NAssume] {
 		if i < len(fv.atags) && o.Anc != nil && !o.Anc[fv.atags[i]] {
 			continue // assumption made in a branch that does not flow into this obligation
